@@ -203,11 +203,21 @@ pub fn replay_beh(b: &Beh, kernels: &[String], j: &mut Judge, full: bool, laws: 
         let key = b.key(fname, extra);
         let minmax = *k == "min" || *k == "max";
 
+        // a LONG series (the long-window cases): what is zero in exact arithmetic comes out as a rounding residue
+        // relative to the magnitude of the terms, so the comparison is made relative to |x|max ^ degree
+        let long_scale = if xs.len() > 64 {
+            laws.and_then(|l| l.deg.get(*k)).map(|d| Unit { factor: 1.0, floor: (maxabs.max(1) as f64).powi(*d) })
+        } else {
+            None
+        };
+        j.unit = long_scale;
         macro_rules! star {
             ($T:ty, $U:ty) => {{
                 let v: Vec<$T> = enc_vec(xs);
                 let got = run_valid::<$T, _, $U, Vec<$U>>(k, &v, w, mp, false);
+                j.unit = long_scale;
                 j.compare(fname, &key, concat!("Vec<", stringify!($T), ">->Vec<", stringify!($U), ">/ret"), &got, exps, case);
+                j.unit = long_scale;
             }};
         }
         macro_rules! star_t {
@@ -247,7 +257,7 @@ pub fn replay_beh(b: &Beh, kernels: &[String], j: &mut Judge, full: bool, laws: 
                             j.unit = Some(un);
                             let cell = format!("Vec<{}>->Vec<{}>/{}@unit={:e}", <$T as InElem>::NAME, <$U as OutElem>::NAME, if $to { "to" } else { "ret" }, $u);
                             j.compare(fname, &key, &cell, &got, exps, case);
-                            j.unit = None;
+                            j.unit = long_scale;
                         }
                     }
                 }};
@@ -392,11 +402,19 @@ pub fn replay_beh(b: &Beh, kernels: &[String], j: &mut Judge, full: bool, laws: 
             let Some(exps) = b.exp.get(*k) else { continue };
             let fname = plain_fn_name(k);
             let key = b.key(fname, "");
+            let long_scale = if xs.len() > 64 {
+                laws.and_then(|l| l.deg.get(*k)).map(|d| Unit { factor: 1.0, floor: (maxabs.max(1) as f64).powi(*d) })
+            } else {
+                None
+            };
+            j.unit = long_scale;
             macro_rules! pstar {
                 ($T:ty, $U:ty) => {{
                     let v: Vec<$T> = enc_vec(xs);
                     let got = run_plain::<$T, _, $U, Vec<$U>>(k, &v, w, mp, false);
+                    j.unit = long_scale;
                     j.compare(fname, &key, concat!("Vec<", stringify!($T), ">->Vec<", stringify!($U), ">/ret"), &got, exps, case);
+                    j.unit = long_scale;
                 }};
             }
             pstar!(f64, f64);
@@ -420,7 +438,7 @@ pub fn replay_beh(b: &Beh, kernels: &[String], j: &mut Judge, full: bool, laws: 
                                 j.unit = Some(un);
                                 let cell = format!("Vec<{}>->Vec<{}>/ret@unit={:e}", <$T as InElem>::NAME, <$U as OutElem>::NAME, $u);
                                 j.compare(fname, &key, &cell, &got, exps, case);
-                                j.unit = None;
+                                j.unit = long_scale;
                             }
                         }
                     }};
@@ -544,6 +562,7 @@ pub fn replay(args: &Args) {
         }
         let mut j = Judge { rep: &mut rep, mode, unit: None };
         replay_beh(&b, &kernels, &mut j, full, laws.as_ref());
+        j.unit = None;
     }
     rep.finish();
 }
